@@ -5,7 +5,7 @@
     (Gen/StreamConsts.v, Gen/HelloConsts.v). *)
 From Coq Require Import List NArith Bool.
 From Verif Require Import Lib.Bytes Sni.Wire Sni.Hello Sni.HelloProofs Sni.Stream Sni.StreamProofs
-  Sni.StreamClose Sni.StreamGen Gen.StreamConsts Gen.HelloConsts Gen.WireSchema Sni.WireGen.
+  Sni.StreamClose Sni.ReadBuf Sni.ReadBufProofs Sni.SideRead Sni.SideReadProofs Sni.StreamGen Gen.StreamConsts Gen.HelloConsts Gen.WireSchema Sni.WireGen.
 Import ListNotations.
 Local Open Scope N_scope.
 
@@ -237,19 +237,123 @@ Proof.
 Qed.
 Print Assumptions C01_later_reads_need_the_close.
 
+(** ** sideConn.Read across message boundaries (side modes, both directions)
+
+    Messages arrive as fragments: several per message, fragments and whole
+    messages of zero length, and a connection that is lost in the middle of a
+    message.  From every state of the curReader machine, with any non-empty
+    buffer and any behaviour of the message reader: a Read returns the next
+    bytes that have arrived (at least one, at most the buffer), or the end
+    marker only when nothing before it is owed, or an error only after
+    everything that had arrived was delivered (with it or before it), or it
+    would block only when everything that arrived has been delivered. *)
+Theorem C01_side_read_fragments : forall m ks s got e s' ks',
+  0 < m -> side_read_f m ks s = (got, e, s', ks') -> read_post_f m (owed_f s) got e s'.
+Proof. exact side_read_f_spec. Qed.
+Print Assumptions C01_side_read_fragments.
+
+(** Any sequence of buffer sizes over any sequence of such messages: what the
+    Reads returned - including bytes returned together with an error - is
+    what had arrived, in order, nothing lost, repeated or inserted. *)
+Theorem C01_side_reads_fragments : forall ms ks s outs e s',
+  Forall (fun m => 0 < m) ms ->
+  side_reads_f ms ks s = (outs, e, s') ->
+  concat outs ++ (match e with RNil => owed_f s' | _ => [] end) = owed_f s.
+Proof. exact side_reads_f_spec. Qed.
+Print Assumptions C01_side_reads_fragments.
+
+(** A close in the middle of a message is never taken for the end of the
+    stream: while the cut message is being read the result is data or an
+    error, never io.EOF and never a block; once its fragments are exhausted
+    every Read fails. *)
+Theorem C01_cut_message_is_an_error : forall m q ks frs got e s' ks',
+  0 < m ->
+  (sr_loop q m ks frs false = (got, e, s', ks') -> e = RNil \/ e = RErrS) /\
+  side_read_f m ks (mkR (Some ([], false)) q) = ([], RErrS, mkR (Some ([], false)) q, tl ks).
+Proof.
+  exact (fun m q ks frs got e s' ks' Hm =>
+           conj (cut_never_eof m q ks frs got e s' ks' Hm) (cut_is_sticky m ks q)).
+Qed.
+Print Assumptions C01_cut_message_is_an_error.
+
+(** ** Whose bytes a read reply carries (multiplexed tunnel, application -> client)
+
+    Each read RPC is served by its own goroutine of the endpoint: obtain a
+    buffer, conn.Read into it, return a response that points into the buffer;
+    serveCall encodes the response later, under writeMu.  Any number of such
+    handler threads (one per outstanding read of any session), any
+    interleaving of their steps, any behaviour of a pool: with a fresh buffer
+    per call, or a pooled one that is given back only after the encoding, the
+    bytes encoded into the reply of call i are the bytes read for call i. *)
+Theorem C01_read_reply_is_what_was_read : forall pol (data : nat -> bytes) sch i r,
+  pol <> BPutBeforeEncode ->
+  t_reply (th (run pol data init sch) i) = Some r -> r = data i.
+Proof. exact (fun pol data sch i r H => reply_is_what_was_read pol data H sch i r). Qed.
+Print Assumptions C01_read_reply_is_what_was_read.
+
+(** ... and the skeleton emitted from the current handleRead / serveCall is
+    the fresh-buffer one. *)
+Theorem C01_read_reply_is_what_was_read_here : forall (data : nat -> bytes) sch i r,
+  policy_of gen_read_buf = Some BFresh /\
+  (t_reply (th (run BFresh data init sch) i) = Some r -> r = data i).
+Proof.
+  exact (fun data sch i r =>
+           conj gen_read_buf_policy
+                (reply_is_what_was_read BFresh data (fun H => match H with eq_refl => I end) sch i r)).
+Qed.
+Print Assumptions C01_read_reply_is_what_was_read_here.
+
+(** A shared pooled buffer given back when the handler returns (seeded change
+    C01-f): refuted - with two calls in flight the first reply carries the
+    second call's bytes. *)
+Theorem C01_pooled_read_buffer_refuted :
+  let data := fun i : nat => match i with O => [10; 11; 12]%N | _ => [20; 21; 22]%N end in
+  t_reply (th (run BPutBeforeEncode data init crossed_schedule) 0) = Some (data 1%nat) /\
+  data 1%nat <> data 0%nat.
+Proof. exact put_before_encode_crossed. Qed.
+Print Assumptions C01_pooled_read_buffer_refuted.
+
 (** ** The code the models were written against is the code in the tree *)
 Theorem C01_source_tie :
   0 < gen_side_chunk /\ gen_side_chunk <= gen_ws_write_buf /\
-  copy_buf <= gen_max_read_size /\ 5 <= gen_hello_buf_size /\
+  copy_buf <= StreamConsts.gen_max_read_size /\ 5 <= gen_hello_buf_size /\
   gen_close_policy = CloseBoth /\
-  src_diff gen_stream_src frozen_stream_src = [].
+  rb_ownedb gen_read_buf = true /\
+  StreamGen.src_diff gen_stream_src frozen_stream_src = [].
 Proof.
   exact (conj gen_side_chunk_pos (conj gen_side_chunk_fits (conj gen_copy_fits_read_cap
-          (conj gen_hello_cap_ge5 (conj gen_close_policy_both gen_stream_src_frozen))))).
+          (conj gen_hello_cap_ge5 (conj gen_close_policy_both
+            (conj gen_read_buf_owned gen_stream_src_frozen)))))).
 Qed.
 Print Assumptions C01_source_tie.
 
 (** * Non-vacuity *)
+
+(** An empty message, a message of three fragments with empty ones between
+    them, an empty message, then a message of which two fragments arrive
+    before the connection is lost, read with buffers of 2, 3, 100, 1 bytes:
+    every byte that arrived, in order, then an error - and again an error. *)
+Example C01_nonvacuous_fragments :
+  let script := [ GBin [] true; GBin [[1; 2]; []; [3]; []; [4; 5; 6]] true; GBin [[]] true;
+                  GBin [[7; 8]; [9]] false; GBin [[99]] true ] in
+  let '(outs, e, s') := side_reads_f [2; 3; 100; 1; 5; 5; 5; 5] [] (mkR None script) in
+  outs = [[1; 2]; [3]; [4; 5; 6]; [7]; [8]; [9]; []] /\ e = RErrS /\
+  fst (fst (fst (side_read_f 4096 [] s'))) = [] /\ snd (fst (fst (side_read_f 4096 [] s'))) = RErrS /\
+  owed_f (mkR None script) = [1; 2; 3; 4; 5; 6; 7; 8; 9].
+Proof. vm_compute. repeat split. Qed.
+
+(** Three read calls in flight with a fresh buffer each, steps interleaved:
+    every reply is its own call's data; the same schedule with a pooled buffer
+    that is given back after the encoding. *)
+Example C01_nonvacuous_read_buffers :
+  let data := fun i : nat => [N.of_nat i; 7]%N in
+  let sch := [(0, false); (1, false); (1, false); (0, false); (2, false); (1, false); (0, false);
+              (2, false); (2, false); (0, false); (1, false); (2, false)]%nat in
+  map (fun i => t_reply (th (run BFresh data init sch) i)) [0; 1; 2]%nat
+    = [Some (data 0%nat); Some (data 1%nat); Some (data 2%nat)] /\
+  map (fun i => t_reply (th (run BPutAfterEncode data init sch) i)) [0; 1; 2]%nat
+    = [Some (data 0%nat); Some (data 1%nat); Some (data 2%nat)].
+Proof. vm_compute. split; reflexivity. Qed.
 
 (** 4097 bytes are sent as a full frame and a one-byte frame. *)
 Example C01_nonvacuous_write :
